@@ -75,7 +75,8 @@ def _c09():
 
 def _c19():
     import loader as lk
-    return {"builders": [lk.build], "level": "other", "explanation": "file loader: content = bytes minus one leading BOM",
+    import usek as uk
+    return {"builders": [lk.build, uk.build], "level": "other", "explanation": "file loader: content = bytes minus one leading BOM",
             "replay_fn": lk.replay_fn, "replay_file_fn": lk.replay_file}
 
 
